@@ -377,8 +377,9 @@ class Fn:
             else:
                 return ("ovf", base)
         # field of a known aggregate
-        while proj and base[0] == "agg" and proj[0][0] == "field" and base[1] in ("Tuple", "Adt") and proj[0][1] < len(base[3]):
-            base = base[3][proj[0][1]]
+        while proj and (base[0] == "agg" and proj[0][0] == "field" and base[1] in ("Tuple", "Adt", "Closure") and proj[0][1] < len(base[3])
+                        or base[0] == "ref" and proj[0][0] == "deref"):
+            base = base[1] if base[0] == "ref" else base[3][proj[0][1]]
             proj = proj[1:]
         if not proj:
             return base
@@ -398,6 +399,9 @@ class Fn:
                 names.append(("sub", e[1], e[2]))
             else:
                 names.append(e[0])
+        if base[0] == "call" and base[1] and base[1].endswith(("Option::filter", "Option::inspect")) and len(names) >= 2 and names[0] == "as:Some" and names[1] == "0" and base[2]:
+            # the payload of a filtered / inspected Option is the receiver's payload
+            return _rebase(base[2][0], names)
         return ("place", base, tuple(names))
 
     def _local_term(self, l, depth):
@@ -415,6 +419,11 @@ class Fn:
             return ("arg", l, self.local_name(l))
         if self.kind == "Closure" and l == 1 and not ds:
             return ("arg", 1, "closure_env")
+        low = self.raw.get("lowered_calls", {}).get(l)
+        if low is not None and len(ds) == low["ndefs"]:
+            # the result of a lowered adaptor call (analysis/lower.py): as a *term* it is still that call - the explicit
+            # control flow is there for the path-based rules
+            return self.call_term(low["term"], low["block"], depth + 1)
         sd = self.single_def(l)
         if sd is None:
             return ("var", l, self.local_name(l))
@@ -544,6 +553,8 @@ def is_log_call(t):
 class Facts:
     def __init__(self, raw):
         self.raw = raw
+        from .lower import lower_adaptors
+        lower_adaptors(raw)                     # Option / Result adaptors with closure arguments -> explicit control flow
         self.fns = [Fn(b, self) for b in raw["bodies"]]
         self.by_npath = defaultdict(list)
         for f in self.fns:
@@ -847,6 +858,16 @@ def find_sub(t, pat):
         if r is not None:
             return r
     return None
+
+
+def flat_place(t):
+    """(root term, projection names): nested places flattened, references and derefs dropped (they carry no information
+    at the term level) - two spellings of one memory location compare equal"""
+    t = strip_refs(t)
+    if t[0] != "place":
+        return t, ()
+    root, names = flat_place(t[1])
+    return root, tuple(names) + tuple(e for e in t[2] if e != "*")
 
 
 def _rebase(base, rest):
